@@ -200,6 +200,53 @@ def run(chk, prog):
                            'consts::resolve_choice does not visit Choice::%s although it carries expressions: a CONST '
                            'used there is emitted as a reference to an undeclared variable' % f['n'], rch.loc(0))
 
+    # ---------------- list items
+    RE = 'C06.list-items-resolved'
+    chk.rule(RE, 'Where the emitter writes a list literal, every key it inserts into the "list" object is the qualified '
+             'name returned by resolve_list_item: inserting the raw source name accepts an unknown list item (and emits '
+             'an item without an origin list).')
+    if ee is not None:
+        bad = []
+        n_ins = 0
+        for g_ in prog.with_closures(ee):
+            for bb, t in g_.calls():
+                if callee_short(t) == 'Map::insert' and len(t['args']) >= 3:
+                    kp = tr.prov(g_, t['args'][1])
+                    if any('Expression::ListItems' in a for a in kp) or any('resolve_list_item' in a for a in kp):
+                        n_ins += 1
+                        if not any('resolve_list_item' in a for a in kp):
+                            bad.append(g_.loc(bb))
+        if chk.anchor(RE, 'list-literal key inserts in emit_expression_ctx', n_ins):
+            chk.decide(RE, chk.key(RE, 'emitter::emit_expression_ctx', 'raw-name-fallback'), not bad,
+                       'only resolved, qualified item names are emitted',
+                       'the emitter falls back to the raw item name (value 0) when a list item cannot be resolved: an '
+                       'unknown list item is accepted instead of being a compile error', bad[0] if bad else None)
+
+    RX = 'C06.context-reaches-expressions'
+    chk.rule(RX, 'Every call of a function taking an optional emit context (Option<&EmitContext>: emit_expression_ctx and '
+             'its helpers) passes a context that derives from the caller\'s own context parameter, never a constant None: '
+             'without the context CONSTs, list items and function names in that expression are not resolved.')
+    takers = {}
+    for fn in prog.fns.values():
+        if not fn.short.startswith('emitter::') or fn.parent:
+            continue
+        for i in range(fn.body.get('argc', 0)):
+            ty = fn.local_ty(i + 1)
+            if 'Option<&' in ty and 'EmitContext' in ty:
+                takers[fn.short] = i
+    n_ctx = 0
+    if chk.anchor(RX, 'functions with an Option<&EmitContext> parameter', len(takers)):
+        for fn in prog.fns.values():
+            for bb, t in fn.calls():
+                cs = callee_short(t)
+                if cs in takers and len(t['args']) > takers[cs]:
+                    n_ctx += 1
+                    pv = tr.prov(fn, t['args'][takers[cs]])
+                    chk.decide(RX, chk.key(RX, prog.root_fn(fn).short, cs, 'ctx'), any(a.startswith('arg:') for a in pv),
+                               'context passed on', '%s calls %s without an emit context (constant None): names in that '
+                               'expression stay unresolved' % (prog.root_fn(fn).short, cs), fn.loc(bb))
+        chk.floor(RX, 'calls passing an optional emit context', n_ctx, 20)
+
     # ---------------- reject unknown
     for name, what in (('ValidationContext::check_target', 'divert target'),
                        ('ValidationContext::check_function_call_target', 'called function')):
